@@ -173,13 +173,15 @@ def _k4(clause, facts):
 @findings.classifier("c10_prepeptide_location_rebuilt_in_pieces")
 def _k5(clause, facts):
     """ Prepeptide.from_biopython rebuilds the location from leader/core/tail with build_location_from_others, which
-        joins neighbours only when 'next.start == so_far.end' on whole locations: never true on the reverse strand
-        nor when the cut lies in a later exon, so the same bases come back as more parts.
-        Must not hide: a re-read prepeptide covering other bases, or the same parts. """
+        joins neighbouring pieces that continue each other (since a591be3e on both strands and in any exon): where the
+        gene itself has two exons that touch (a frameshift written as adjacent exons), they come back as one part.
+        Must not hide: a re-read prepeptide covering other bases, the same parts, or MORE parts than before (pieces
+        left apart where leader, core and tail were cut - what a591be3e repaired). """
     _, parts = _split(clause)
     return (parts[:2] == ["feature-set", "CDS_motif"] and facts.get("class") == "Prepeptide"
             and facts.get("in_original") and facts.get("in_reread") and facts.get("same_bases") is True
-            and facts.get("parts_reread") != facts.get("parts_original")
+            and isinstance(facts.get("parts_reread"), int) and isinstance(facts.get("parts_original"), int)
+            and facts.get("parts_reread") < facts.get("parts_original")
             and not facts.get("reread_sequence_has_space"))
 
 
